@@ -163,7 +163,7 @@ def C01.changedHasRow (seg : Seg) : Prop :=
 
 /-- the values a version row of table `kc` must hold after tracked event `e` -/
 def expectedVals (cfg : Cfg) (kc : TKey × List (Option Nat)) (e : Ev) : List Val :=
-  if cfg.nullDelete && e.isDel then kc.2.map (fun _ => none) else tableVals kc.2 e.vals
+  if cfg.nullDelete && e.isDel then nullVals cfg kc.1.1 kc.2 e.vals else tableVals kc.2 e.vals
 
 def delRowOK (cfg : Cfg) (seg : Seg) (kc : TKey × List (Option Nat)) (e : Ev) : Prop :=
   ∀ r ∈ seg.after.db.versions, r.key = kc.1 → r.tx ∈ newIds seg →
